@@ -868,7 +868,13 @@ pub fn minimise(
             Err(_) => Ok(false),
         }
     };
-    let budget = 600u64;
+    // every test of a hang costs a whole watchdog period: a handful of attempts, no more (the
+    // trace of a hang is one delivery already)
+    let budget = if invariant.ends_with(".hang") {
+        6u64
+    } else {
+        600u64
+    };
     // ddmin over deletable steps
     let mut chunk = (cur.steps.len() / 2).max(1);
     while chunk >= 1 && tests < budget {
